@@ -100,16 +100,23 @@ package storage
 //@   requires store_wf(s) && held[addr(s.authorizeCodesMutex)] == 0 && (forall m2 V :: held[m2] != 0 ==> mrank(m2) < 2)
 //@   modifies held, mapof(s.AuthorizeCodes)
 //@   ensures [C19.locks-released] held == old(held)
+//@   ensures [C01.store-code-table] err == nil && (code in s.AuthorizeCodes) && s.AuthorizeCodes[code].active && s.AuthorizeCodes[code].Requester == req && (forall k string :: k != code ==> (k in s.AuthorizeCodes) == old(k in s.AuthorizeCodes) && s.AuthorizeCodes[k].active == old(s.AuthorizeCodes[k].active) && s.AuthorizeCodes[k].Requester == old(s.AuthorizeCodes[k].Requester))
 
 //@ func (*MemoryStore).GetAuthorizeCodeSession
 //@   requires store_wf(s) && held[addr(s.authorizeCodesMutex)] == 0 && (forall m2 V :: held[m2] != 0 ==> mrank(m2) < 2)
 //@   modifies held
 //@   ensures [C19.locks-released] held == old(held)
+//@   ensures [C01.store-code-table] err == nil ==> (code in s.AuthorizeCodes) && s.AuthorizeCodes[code].active && result == s.AuthorizeCodes[code].Requester
+//@   ensures [C01.store-code-table] !(code in s.AuthorizeCodes) ==> err != nil && eis(err, fosite.ErrNotFound) && result == nil
+//@   ensures [C01.store-code-table] (code in s.AuthorizeCodes) && !s.AuthorizeCodes[code].active ==> err != nil && eis(err, fosite.ErrInvalidatedAuthorizeCode) && result != nil
 
 //@ func (*MemoryStore).InvalidateAuthorizeCodeSession
 //@   requires store_wf(s) && held[addr(s.authorizeCodesMutex)] == 0 && (forall m2 V :: held[m2] != 0 ==> mrank(m2) < 2)
 //@   modifies held, mapof(s.AuthorizeCodes)
 //@   ensures [C19.locks-released] held == old(held)
+//@   ensures [C01.store-code-table] err == nil ==> old(code in s.AuthorizeCodes) && (code in s.AuthorizeCodes) && !s.AuthorizeCodes[code].active && s.AuthorizeCodes[code].Requester == old(s.AuthorizeCodes[code].Requester)
+//@   ensures [C01.store-code-table] err != nil ==> eis(err, fosite.ErrNotFound) && !old(code in s.AuthorizeCodes)
+//@   ensures [C01.store-code-never-reactivated] forall k string :: (k in s.AuthorizeCodes) == old(k in s.AuthorizeCodes) && (k != code ==> s.AuthorizeCodes[k].active == old(s.AuthorizeCodes[k].active)) && (!old(s.AuthorizeCodes[k].active) ==> !s.AuthorizeCodes[k].active)
 
 //@ func (*MemoryStore).CreatePKCERequestSession
 //@   requires store_wf(s) && held[addr(s.pkcesMutex)] == 0 && (forall m2 V :: held[m2] != 0 ==> mrank(m2) < 2)
@@ -130,16 +137,20 @@ package storage
 //@   requires store_wf(s) && held[addr(s.accessTokenRequestIDsMutex)] == 0 && held[addr(s.accessTokensMutex)] == 0 && (forall m2 V :: held[m2] != 0 ==> mrank(m2) < 1)
 //@   modifies held, mapof(s.AccessTokenRequestIDs), mapof(s.AccessTokens)
 //@   ensures [C19.locks-released] held == old(held)
+//@   ensures [C08.store-access-table] err == nil && (signature in s.AccessTokens) && s.AccessTokens[signature] == req && (forall k string :: k != signature ==> (k in s.AccessTokens) == old(k in s.AccessTokens) && s.AccessTokens[k] == old(s.AccessTokens[k]))
 
 //@ func (*MemoryStore).GetAccessTokenSession
 //@   requires store_wf(s) && held[addr(s.accessTokensMutex)] == 0 && (forall m2 V :: held[m2] != 0 ==> mrank(m2) < 2)
 //@   modifies held
 //@   ensures [C19.locks-released] held == old(held)
+//@   ensures [C08.store-access-table] err == nil ==> (signature in s.AccessTokens) && result == s.AccessTokens[signature]
+//@   ensures [C08.store-access-table] !(signature in s.AccessTokens) ==> err != nil && eis(err, fosite.ErrNotFound)
 
 //@ func (*MemoryStore).DeleteAccessTokenSession
 //@   requires store_wf(s) && held[addr(s.accessTokensMutex)] == 0 && (forall m2 V :: held[m2] != 0 ==> mrank(m2) < 2)
 //@   modifies held, mapof(s.AccessTokens)
 //@   ensures [C19.locks-released] held == old(held)
+//@   ensures [C08.store-access-table] err == nil && !(signature in s.AccessTokens) && (forall k string :: k != signature ==> (k in s.AccessTokens) == old(k in s.AccessTokens) && s.AccessTokens[k] == old(s.AccessTokens[k]))
 
 //@ func (*MemoryStore).CreateRefreshTokenSession
 //@   requires store_wf(s) && held[addr(s.refreshTokenRequestIDsMutex)] == 0 && held[addr(s.refreshTokensMutex)] == 0 && (forall m2 V :: held[m2] != 0 ==> mrank(m2) < 1)
@@ -170,6 +181,10 @@ package storage
 //@   requires store_wf(s) && held[addr(s.accessTokenRequestIDsMutex)] == 0 && held[addr(s.accessTokensMutex)] == 0 && (forall m2 V :: held[m2] != 0 ==> mrank(m2) < 1)
 //@   modifies held, mapof(s.AccessTokens)
 //@   ensures [C19.locks-released] held == old(held)
+//@   invariant loop#1 [C08.store-revokes-every-token-of-request] s.AccessTokens == pre(s.AccessTokens) && (forall k string :: (k in s.AccessTokens) ==> old(k in s.AccessTokens) && s.AccessTokens[k] == old(s.AccessTokens[k])) && (forall k string :: old(k in s.AccessTokens) && old(s.AccessTokens[k]).GetID() != requestID ==> (k in s.AccessTokens)) && (forall k string :: $visited(k) && old(k in s.AccessTokens) && old(s.AccessTokens[k]).GetID() == requestID ==> !(k in s.AccessTokens))
+//@   ensures [C08.store-revokes-every-token-of-request] err == nil ==> (forall k string :: old(k in s.AccessTokens) && old(s.AccessTokens[k]).GetID() == requestID ==> !(k in s.AccessTokens))
+//@   ensures [C08.store-revoke-touches-only-that-request] forall k string :: (k in s.AccessTokens) ==> old(k in s.AccessTokens) && s.AccessTokens[k] == old(s.AccessTokens[k])
+//@   ensures [C08.store-revoke-touches-only-that-request] forall k string :: old(k in s.AccessTokens) && old(s.AccessTokens[k]).GetID() != requestID ==> (k in s.AccessTokens)
 
 //@ func (*MemoryStore).GetPublicKey
 //@   requires store_wf(s) && held[addr(s.issuerPublicKeysMutex)] == 0 && (forall m2 V :: held[m2] != 0 ==> mrank(m2) < 2)
